@@ -295,6 +295,15 @@ fn check_props(d: &hook::Dump, t: &hook::TypeDump, script: &str, rep: &mut Repor
             );
         }
     }
+    // (1b) the generated functions are well-formed control flow
+    for (f, m) in &t.malformed {
+        viol(
+            rep,
+            &format!("the generated {f} function is malformed (the code generator panics on it): {m}"),
+            &format!("malformed generate_{f}"),
+            input(json!(m)),
+        );
+    }
     if !align.is_power_of_two() || size % align != 0 {
         viol(rep, "layout not well-formed", "layout-wf", input(json!([size, align])));
     }
